@@ -1029,7 +1029,22 @@ run_op(char *op, int last)
         int fid = m ? id_of(m) : -1;
         if (fid >= 0) fprintf(stdout, " %s F%d", rcname(r), fid);
         else fprintf(stdout, " %s F-", rcname(r));
-    } else if (law_mode && !strcmp(a[0], "newlist2") && na == 5) {
+    } else if (!strcmp(a[0], "findkeys") && na == 4) {
+        /* findkeys,<anchor>,<mod:name>,<predicates-hex>: lyd_find_sibling_val of a list instance by ALL its keys, the
+         * predicates in any order */
+        struct lyd_node *n = node_arg(a[1]), *m = NULL;
+        if (!n) REFUSE("NoNode");
+        if (!n->schema) REFUSE("OutOfFragment");
+        const struct lysc_node *s = find_schema_child(lysc_data_parent(n->schema), a[2]);
+        if (!s || s->nodetype != LYS_LIST || (s->flags & LYS_KEYLESS)) REFUSE("NoSchema");
+        char *pred = vp_unhex(a[3], NULL);
+        if (!pred) REFUSE("BadArg");
+        LY_ERR r = lyd_find_sibling_val(n, s, pred, 0, &m);
+        free(pred);
+        int fid = m ? id_of(m) : -1;
+        if (fid >= 0) fprintf(stdout, " %s F%d", rcname(r), fid);
+        else fprintf(stdout, " %s F-", rcname(r));
+    } else if (!strcmp(a[0], "newlist2") && na == 5) {
         /* newlist2,<id>,<parent|->,<mod:name>,<predicates-hex>: lyd_new_list2 (keys as predicates, in any order) */
         int id = atoi(a[1]);
         struct lyd_node *parent = NULL, *node = NULL;
@@ -1050,7 +1065,7 @@ run_op(char *op, int last)
             register_new(node);
         }
         done(r, search);
-    } else if (law_mode && !strcmp(a[0], "newpath") && na == 5) {
+    } else if (!strcmp(a[0], "newpath") && na == 5) {
         /* newpath,<id>,<parent|->,<path-hex>,<value-hex>: lyd_new_path; every node it creates gets an id */
         int id = atoi(a[1]);
         struct lyd_node *parent = NULL, *node = NULL, *top;
